@@ -1,6 +1,337 @@
-//! C22 — not implemented yet.
-use mc_core::Ctx;
+//! C22 — typed SBOR codecs agree with their generated schemas (types reachable from sbor / radix-common /
+//! radix-engine-interface / radix-transactions; engine-only types are covered in mc-engine).
+//!
+//! Statement: encoding a value of an SBOR-derived type gives a payload that validates against the type's generated
+//! schema and decodes back to an equal value, and every payload the typed decoder accepts validates against that
+//! schema.
+//!
+//! For each type T of a fixed list (Scrypto flavour: `scrypto_encode/decode`; manifest flavour:
+//! `manifest_encode/decode`, validated against the Scrypto schema through `ManifestCustomExtension`):
+//!  * S_T = `generate_full_schema_from_single_type::<T, ScryptoCustomSchema>()`;
+//!  * P = `schema_directed(S_T)` (see schemagen.rs) at the smallest depth >= 4 at which the type bottoms out, +1;
+//!  * (1) for p in P: if the typed decoder accepts p with value v, then the payload validator must accept p,
+//!        `encode(v)` must validate and `decode(encode(v)) == v`;
+//!  * (2) for every single-point mutation m of (a prefix of) P over a 14-byte alphabet of structurally significant
+//!        bytes: typed decoder accepts m => validator accepts m (and the encode/decode laws as in (1));
+//!  * (3) p schema-valid but typed-rejected is allowed (types may be stricter than their schemas) and counted.
+//! A panic of the typed decoder, encoder or validator on any of these inputs is reported under its own key.
+use crate::minrec::MinRec;
+use crate::schemagen::*;
+use mc_core::{par_range, Ctx, Level, Local};
+use radix_common::prelude::*;
+use radix_engine_interface::prelude::*;
+use radix_engine_interface::blueprints::access_controller::*;
+use radix_engine_interface::blueprints::account::*;
+use radix_engine_interface::blueprints::consensus_manager::*;
+use radix_engine_interface::blueprints::identity::*;
+use radix_engine_interface::blueprints::package::*;
+use radix_engine_interface::blueprints::resource::*;
+use radix_engine_interface::object_modules::metadata::*;
+use radix_engine_interface::object_modules::role_assignment::*;
+use radix_engine_interface::object_modules::royalty::*;
+use radix_transactions::manifest::*;
+use radix_transactions::model::*;
+use radix_transactions::prelude::*;
+use serde_json::{json, Map};
+use std::fmt::Debug;
 
-pub fn run(_ctx: Ctx) -> ! {
-    mc_core::machinery_error("C22: not implemented")
+static MIN: MinRec = MinRec::new();
+
+pub const MUTATION_ALPHABET: [u8; 14] = [0x00, 0x01, 0x02, 0x07, 0x0c, 0x20, 0x21, 0x22, 0x23, 0x5c, 0x4d, 0x80, 0x90, 0xff];
+
+#[derive(Clone, Copy)]
+pub struct Budget {
+    pub root_cap: usize,
+    pub mutate_first: usize,
+    pub mutate_max_len: usize,
+}
+
+pub trait Codec {
+    type F: Flavor<S = ScryptoCustomSchema>;
+    fn validate(payload: &[u8], schema: &SchemaV1<ScryptoCustomSchema>, id: LocalTypeId) -> Result<(), String>;
+}
+pub struct ScryptoCodec;
+impl Codec for ScryptoCodec {
+    type F = Scrypto;
+    fn validate(payload: &[u8], schema: &SchemaV1<ScryptoCustomSchema>, id: LocalTypeId) -> Result<(), String> {
+        validate_payload_against_schema::<ScryptoCustomExtension, ()>(payload, schema, id, &(), SCRYPTO_SBOR_V1_MAX_DEPTH).map_err(|e| format!("{:?}", e.error))
+    }
+}
+pub struct ManifestCodec;
+impl Codec for ManifestCodec {
+    type F = Manifest;
+    fn validate(payload: &[u8], schema: &SchemaV1<ScryptoCustomSchema>, id: LocalTypeId) -> Result<(), String> {
+        validate_payload_against_schema::<ManifestCustomExtension, ()>(payload, schema, id, &(), MANIFEST_SBOR_V1_MAX_DEPTH).map_err(|e| format!("{:?}", e.error))
+    }
+}
+
+fn loc() -> String {
+    let l = mc_core::last_panic_location();
+    l.rsplit('/').next().unwrap_or(&l).to_string()
+}
+
+/// The oracle for one payload of one type.
+fn check_payload<T: Debug + PartialEq, C: Codec>(
+    name: &str,
+    origin: &str,
+    payload: &[u8],
+    schema: &SchemaV1<ScryptoCustomSchema>,
+    id: LocalTypeId,
+    decode: &dyn Fn(&[u8]) -> Result<T, DecodeError>,
+    encode: &dyn Fn(&T) -> Result<Vec<u8>, EncodeError>,
+    l: &mut Local,
+) {
+    l.eval();
+    let case = |extra: serde_json::Value| json!({"type": name, "flavour": C::F::NAME, "origin": origin, "payload_hex": mc_core::hex(payload), "detail": extra});
+    let dec = match mc_core::catch(|| decode(payload)) {
+        Ok(d) => d,
+        Err(p) => {
+            MIN.record(l, format!("decode-panic:{}:{name}", loc()), format!("typed decoder of {name} panicked: {p}"), payload.len(), name, case(json!(p)));
+            return;
+        }
+    };
+    let val = match mc_core::catch(|| C::validate(payload, schema, id)) {
+        Ok(v) => v,
+        Err(p) => {
+            MIN.record(l, format!("validator-panic:{}:{name}", loc()), format!("payload validator panicked for {name}: {p}"), payload.len(), name, case(json!(p)));
+            return;
+        }
+    };
+    match (dec, val) {
+        (Err(_), Err(_)) => l.class(&format!("{origin}:both-reject")),
+        (Err(_), Ok(())) => {
+            l.class(&format!("{origin}:schema-valid:typed-rejected(allowed)"));
+            l.info(&format!("typed-stricter-than-schema:{name}"));
+        }
+        (Ok(v), Err(e)) => {
+            let reason = if e.contains("Own<") {
+                "own-validation"
+            } else if e.contains("Reference<") {
+                "reference-validation"
+            } else if e.contains("Length") {
+                "length-validation"
+            } else if e.contains("ValidationError") {
+                "other-validation"
+            } else {
+                "structure"
+            };
+            MIN.record(l, format!("typed-accepts:schema-rejects:{reason}:{name}"), format!("{name}: typed decoder accepts a payload its generated schema rejects ({e}); decoded value {}", mc_core::truncate(&format!("{v:?}"), 300)), payload.len(), name, case(json!(e)));
+        }
+        (Ok(v), Ok(())) => {
+            // encode(v) validates and round-trips
+            let enc = match mc_core::catch(|| encode(&v)) {
+                Ok(Ok(e)) => e,
+                Ok(Err(e)) => {
+                    l.class(&format!("{origin}:accepted:not-re-encodable"));
+                    l.info(&format!("decoded-value-not-encodable:{name}:{e:?}"));
+                    return;
+                }
+                Err(p) => {
+                    MIN.record(l, format!("encode-panic:{}:{name}", loc()), format!("encoder of {name} panicked on a decoded value: {p}"), payload.len(), name, case(json!(p)));
+                    return;
+                }
+            };
+            if let Err(e) = C::validate(&enc, schema, id) {
+                MIN.record(l, format!("encoded-value-rejected-by-schema:{name}"), format!("{name}: encode(v) does not validate against the generated schema ({e}); v = {}", mc_core::truncate(&format!("{v:?}"), 300)), payload.len(), name, case(json!({"encoded_hex": mc_core::hex(&enc), "error": e})));
+                return;
+            }
+            match decode(&enc) {
+                Ok(v2) if v2 == v => {
+                    if enc == payload {
+                        l.class(&format!("{origin}:accepted:roundtrip-identical-bytes"));
+                    } else {
+                        l.class(&format!("{origin}:accepted:roundtrip-equal-value-other-bytes"));
+                    }
+                }
+                other => {
+                    MIN.record(l, format!("roundtrip-not-equal:{name}"), format!("{name}: decode(encode(v)) != v: v = {} got {}", mc_core::truncate(&format!("{v:?}"), 200), mc_core::truncate(&format!("{other:?}"), 200)), payload.len(), name, case(json!({"encoded_hex": mc_core::hex(&enc)})));
+                }
+            }
+        }
+    }
+}
+
+fn check_type<T: Debug + PartialEq + ScryptoDescribe, C: Codec>(
+    name: &str,
+    budget: Budget,
+    decode: &dyn Fn(&[u8]) -> Result<T, DecodeError>,
+    encode: &dyn Fn(&T) -> Result<Vec<u8>, EncodeError>,
+    l: &mut Local,
+) {
+    let (id, versioned) = generate_full_schema_from_single_type::<T, ScryptoCustomSchema>();
+    let schema = versioned.v1();
+    // smallest depth at which the type bottoms out
+    let mut values = vec![];
+    let mut used_depth = 0;
+    for depth in 4..=14 {
+        let b = Bound { depth, len_bound: 3, product_cap: 64, node_cap: 60, max_len: 70, root_cap: budget.root_cap };
+        values = schema_directed::<C::F>(schema, id, &b);
+        if !values.is_empty() {
+            let b2 = Bound { depth: depth + 1, ..b };
+            let deeper = schema_directed::<C::F>(schema, id, &b2);
+            used_depth = depth + 1;
+            if !deeper.is_empty() {
+                values = deeper;
+            }
+            break;
+        }
+    }
+    if values.is_empty() {
+        l.class("type-does-not-bottom-out-within-depth-14");
+        l.info(&format!("no-payloads-generated:{name}"));
+        return;
+    }
+    l.info(&format!("payloads:{name}:depth={used_depth}:n={}", values.len()));
+    let prefix = C::F::PREFIX;
+    let mut n_mut = 0usize;
+    for (i, e) in values.iter().enumerate() {
+        let p = e.payload(prefix);
+        check_payload::<T, C>(name, "generated", &p, schema, id, decode, encode, l);
+        if i < budget.mutate_first && p.len() <= budget.mutate_max_len {
+            mc_core::gen::mutations(&p, &MUTATION_ALPHABET, |m| {
+                n_mut += 1;
+                check_payload::<T, C>(name, "mutated", m, schema, id, decode, encode, l);
+            });
+        }
+        if i == values.len() / 2 {
+            l.sample(|| json!({"type": name, "flavour": C::F::NAME, "payload_hex": mc_core::hex(&p), "depth": used_depth}));
+        }
+    }
+}
+
+type Job = Box<dyn Fn(Budget, &mut Local) + Send + Sync>;
+
+fn scrypto_job<T: ScryptoEncode + ScryptoDecode + ScryptoDescribe + Debug + PartialEq + 'static>(name: &'static str) -> (String, Job) {
+    (
+        format!("scrypto:{name}"),
+        Box::new(move |budget, l| {
+            check_type::<T, ScryptoCodec>(name, budget, &|b| scrypto_decode::<T>(b), &|v| scrypto_encode(v), l);
+        }),
+    )
+}
+fn manifest_job<T: ManifestEncode + ManifestDecode + ScryptoDescribe + Debug + PartialEq + 'static>(name: &'static str) -> (String, Job) {
+    (
+        format!("manifest:{name}"),
+        Box::new(move |budget, l| {
+            check_type::<T, ManifestCodec>(name, budget, &|b| manifest_decode::<T>(b), &|v| manifest_encode(v), l);
+        }),
+    )
+}
+
+macro_rules! scrypto_types {
+    ($v:ident; $($t:ty),* $(,)?) => { $( $v.push(scrypto_job::<$t>(stringify!($t))); )* };
+}
+macro_rules! manifest_types {
+    ($v:ident; $($t:ty),* $(,)?) => { $( $v.push(manifest_job::<$t>(stringify!($t))); )* };
+}
+
+fn jobs() -> Vec<(String, Job)> {
+    let mut v: Vec<(String, Job)> = vec![];
+    // ---- sbor + radix-common (hand-written codecs first)
+    scrypto_types!(v;
+        Decimal, PreciseDecimal, NonFungibleLocalId, NonFungibleGlobalId,
+        ResourceAddress, ComponentAddress, PackageAddress, GlobalAddress, InternalAddress,
+        Hash, PublicKey, Secp256k1PublicKey, Ed25519PublicKey, PublicKeyHash,
+        Instant, UtcDateTime, Epoch, Round, NetworkDefinition,
+        Option<u8>, Result<u8, String>, (u8, String), Vec<u8>, Vec<(u8, bool)>, BTreeMap<u8, String>, BTreeSet<u16>, [u8; 3], (), i128, u128, bool, String,
+        IndexMap<String, Decimal>, IndexSet<NonFungibleLocalId>,
+        ScryptoValue,
+        LocalTypeId, TypeMetadata, ScryptoTypeValidation, ScryptoLocalTypeKind, VersionedScryptoSchema,
+        
+        BlueprintId, ResourceOrNonFungible,
+        ManifestResourceConstraint, ManifestResourceConstraints, GeneralResourceConstraint, LowerBound, UpperBound, AllowedIds,
+    );
+    // ---- radix-engine-interface
+    scrypto_types!(v;
+        AccessRule, CompositeRequirement, BasicRequirement, OwnerRole, OwnerRoleEntry, RoleAssignmentInit, RoleKey, RoleList, ModuleId,
+        MethodAccessibility, 
+        MetadataValue, MetadataInit, KeyValueStoreInit<String, MetadataValue>,
+        WithdrawStrategy, RoundingMode, ResourcePreference, DefaultDepositRule, TimePrecision, TimeComparisonOperator,
+        RoyaltyAmount, PackageRoyaltyConfig, ComponentRoyaltyConfig,
+        BlueprintVersion, BlueprintVersionKey, CanonicalBlueprintId,
+        FungibleResourceRoles, NonFungibleResourceRoles, ResourceFeature,
+        NonFungibleIdType, ResourceType,
+        Own, Reference, Bucket, Proof, Vault, FungibleBucket, NonFungibleBucket, FungibleProof, NonFungibleProof, FungibleVault, NonFungibleVault, GlobalAddressReservation,
+        LiquidFungibleResource, LockedFungibleResource, LiquidNonFungibleVault, LiquidNonFungibleResource, LockedNonFungibleResource,
+        AccountWithdrawInput, AccountLockFeeInput, AccountSetDefaultDepositRuleInput,
+        ConsensusManagerNextRoundInput,
+        RuleSet, Proposer, Role,
+        FungibleResourceManagerCreateInput,
+        IdentityCreateAdvancedInput,
+        
+    );
+    // ---- radix-transactions (Scrypto-encodable parts)
+    scrypto_types!(v;
+        TransactionIntentHash, SignedTransactionIntentHash, NotarizedTransactionHash, SubintentHash, IntentHash, SystemTransactionHash, LedgerTransactionHash,
+        InterpreterValidationRulesetSpecifier, PreAllocatedAddress,
+        RawNotarizedTransaction, RawSubintent, RawManifest,
+    );
+    // ---- manifest flavour: the transaction models
+    manifest_types!(v;
+        ManifestValue,
+        InstructionV1, InstructionV2, InstructionsV1, InstructionsV2, BlobsV1, BlobV1,
+        TransactionHeaderV1, MessageV1, PlaintextMessageV1, EncryptedMessageV1, MessageContentsV1,
+        IntentV1, IntentSignaturesV1, IntentSignatureV1, NotarySignatureV1, SignedIntentV1, NotarizedTransactionV1,
+        SignatureV1, SignatureWithPublicKeyV1,
+        TransactionHeaderV2, IntentHeaderV2, MessageV2, IntentCoreV2, TransactionIntentV2, SubintentV2, NonRootSubintentsV2, ChildSubintentSpecifiersV2, ChildSubintentSpecifier,
+        IntentSignaturesV2, NonRootSubintentSignaturesV2, SignedTransactionIntentV2, NotarizedTransactionV2, NotarySignatureV2,
+        PartialTransactionV2, SignedPartialTransactionV2,
+        SystemTransactionV1, RoundUpdateTransactionV1, FlashTransactionV1,
+        AnyTransaction, LedgerTransaction,
+        TransactionManifestV1, SystemTransactionManifestV1, TransactionManifestV2, SubintentManifestV2, AnyManifest,
+        ManifestObjectNames, KnownManifestObjectNames, TransactionObjectNames,
+        PreAllocatedAddress, AccessRule, ManifestResourceConstraints, ManifestResourceConstraint,
+        TakeFromWorktop, CallMethod, CallFunction, AllocateGlobalAddress, YieldToChild, VerifyParent, AssertBucketContents,
+        ManifestGlobalAddress, ManifestPackageAddress, ManifestBucket, ManifestProof, ManifestAddressReservation, ManifestBlobRef, ManifestDecimal, ManifestPreciseDecimal,
+        Decimal, PreciseDecimal, NonFungibleLocalId, NonFungibleGlobalId, ResourceAddress, GlobalAddress, InternalAddress, PublicKey, Hash, Epoch, Instant,
+        MetadataValue, OwnerRole, RoleAssignmentInit, ModuleConfig<MetadataInit>, FungibleResourceRoles, NonFungibleResourceRoles,
+        AccountTryDepositOrAbortManifestInput, AccessControllerCreateManifestInput, NonFungibleResourceManagerCreateManifestInput, PackagePublishWasmAdvancedManifestInput, ValidatorStakeManifestInput,
+    );
+    v
+}
+
+pub fn run(ctx: Ctx) -> ! {
+    let jobs = jobs();
+    if let Some(case) = ctx.read_replay_case() {
+        let ty = case.get("type").and_then(|x| x.as_str()).unwrap_or("");
+        let fl = case.get("flavour").and_then(|x| x.as_str()).unwrap_or("");
+        let payload = mc_core::unhex(case.get("payload_hex").and_then(|x| x.as_str()).unwrap_or(""));
+        println!("replay: type {ty} flavour {fl} payload {}", mc_core::hex(&payload));
+        // re-run the whole type with the recorded payload only: the job API works per type, so we re-run the type at
+        // the smallest budget and report whether the same key reappears
+        let mut l = Local::new();
+        for (name, job) in &jobs {
+            if name == &format!("{fl}:{ty}") {
+                job(Budget { root_cap: 5000, mutate_first: 50, mutate_max_len: 300 }, &mut l);
+            }
+        }
+        ctx.merge(l);
+        MIN.flush(&ctx);
+        ctx.finish(Level::Exploration, "replay", 0, false, Map::new(), &[]);
+    }
+    let budget = ctx.pick(Budget { root_cap: 1500, mutate_first: 25, mutate_max_len: 200 }, Budget { root_cap: 20_000, mutate_first: 400, mutate_max_len: 400 });
+    par_range(&ctx, jobs.len() as u64, 1, |i, l| {
+        let (_name, job) = &jobs[i as usize];
+        job(budget, l);
+        l.class("type-checked");
+    });
+    MIN.flush(&ctx);
+    let classes = ctx.classes();
+    let nontrivial: u64 = classes.iter().filter(|(k, _)| k.contains(":accepted:")).map(|(_, v)| *v).sum();
+    let mut cov = Map::new();
+    cov.insert("types".into(), json!(jobs.len()));
+    cov.insert("type_list".into(), json!(jobs.iter().map(|j| j.0.clone()).collect::<Vec<_>>()));
+    cov.insert("budget".into(), json!({"root_cap": budget.root_cap, "mutated_payloads_per_type": budget.mutate_first, "mutation_alphabet": MUTATION_ALPHABET.len()}));
+    ctx.finish(
+        Level::Exploration,
+        "a case = one payload (generated from the type's own schema, or a single-point mutation of one) checked against one type: typed decode vs payload validation, re-encode, re-decode; non-trivial = payloads the typed decoder accepted (the ones the oracle constrains)",
+        nontrivial,
+        true,
+        cov,
+        &[
+            "static custom validation (context `()`): reference/own validations are checked by entity type only",
+            "schema_directed is exhaustive only within its bound (product cap 64, node cap 60, root cap per tier); wide structs are covered by one-field-at-a-time deviations from a baseline",
+            "engine-only types (substates, receipts, events) are checked in mc-engine",
+        ],
+    )
 }
